@@ -85,10 +85,10 @@ def dtype_cls(d, default="f"):
 # uninterpreted real functions (A1: reals)
 _REAL = z3.RealSort()
 NORM2 = z3.Function("norm2", _REAL, _REAL, _REAL)
-UF = {n: z3.Function(n, _REAL, _REAL) for n in ("exp", "log", "tanh", "sqrt", "cos", "sin", "sigmoid")}
+UF = {n: z3.Function("uf_" + n, _REAL, _REAL) for n in ("exp", "log", "tanh", "sqrt", "cos", "sin", "sigmoid")}
 
 
-def norm2_axioms(formulas=()):
+def norm2_axioms(formulas=(), exact=False):
     """Axioms of the Euclidean norm of a 2-vector (uninterpreted, A1): non-negative,
     zero iff the vector is zero (quantified, create no new terms); evenness
     norm2(x,y) = norm2(-x,-y) instantiated for the ground applications present."""
@@ -113,6 +113,9 @@ def norm2_axioms(formulas=()):
             stack.extend(t.children())
     for a in apps[:200]:
         ax.append(a == NORM2(z3.simplify(-a.arg(0)), z3.simplify(-a.arg(1))))
+        if exact:
+            # concrete-dimension runs (counterexample search): the true Euclidean norm, so that models replay
+            ax.append(z3.And(a >= 0, a * a == a.arg(0) * a.arg(0) + a.arg(1) * a.arg(1)))
     return ax
 
 
@@ -463,6 +466,10 @@ def getitem(t: SymTensor, index):
     ctx = cur()
     if not isinstance(index, tuple):
         index = (index,)
+    # a one-element python list index [k] selects like the slice k:k+1 (keeps the dim)
+    index = tuple(slice(i[0], i[0] + 1) if isinstance(i, list) and len(i) == 1 and isinstance(i[0], int) and i[0] >= 0 else i for i in index)
+    if any(isinstance(i, list) for i in index):
+        raise Unsupported("list index")
     # advanced indexing?
     has_tensor = any(T(i) for i in index)
     if has_tensor:
@@ -674,6 +681,23 @@ def wf_forall(shape, cond_fn, what):
         ctx.assume(z3.ForAll(vs, body))
     else:
         ctx.assume(B_(goal))
+
+
+def assume_forall(shape, cond_fn):
+    ctx = cur()
+    vs, I, rng = [], [], []
+    for d, n in enumerate(shape):
+        if isinstance(n, int) and n == 1:
+            I.append(0)
+            continue
+        v = ctx.fresh_int(f"a{d}")
+        vs.append(v)
+        I.append(v)
+        rng.append(z3.And(v >= 0, v < zint(n)))
+    c = IMPL(AND(*rng), cond_fn(tuple(I)))
+    if isinstance(c, bool):
+        return
+    ctx.assume(z3.ForAll(vs, c) if vs else c)
 
 
 def setitem(t: SymTensor, index, value):
